@@ -3,9 +3,9 @@ NOTES = ("All checks rebuild every obligation from /repo's working tree. Obligat
          "discharged for all inputs; T = exact decision over a complete finite domain (all shipped grammar tables / node "
          "classes / live regexes); B = bounded stand-in (run-time contract over a stated scope; never counted as proved). "
          "level is 'proof' only when every obligation of the property is D/T and discharged; otherwise 'other' with the "
-         "split in the evidence. Exit 0 held / 1 VIOLATION / 2 undecided (binding error, out-of-subset) / 3 checker error. "
+         "split in the evidence. Exit 0 held / 1 VIOLATION / 2 undecided (binding error, out-of-subset) / 3 checker error; an undecided D/T obligation of a run whose bounded obligations all passed degrades to exit 0 with a DEGRADED line (the evidence then shows discharged < obligations, so the run cannot be read as a proof). "
          "A D obligation whose proof no longer goes through is reported as VIOLATION ... no-failing-input-found. "
-         "Known findings: known_findings.json. Seeded changes used to test the checks: seeded/.")
+         "Known findings: known_findings.json. Seeded changes used to test the checks: seeded/ (seeded/matrix.json: which obligations report which seed); must-fail mutants: selftest/.")
 
 NOT_APPLICABLE = [
     dict(property_id='C12', reason="the oracle is the CPython compiler of 8 interpreter versions (they are installed under "
